@@ -432,3 +432,24 @@ def nearest(x, v, strategy):
         return min(k, len(x) - 1)
     d = np.abs(x - v)
     return int(np.argmin(d))
+
+
+def known_loader(dataset):
+    import traffic_weaver.datasets._datasets as m
+    name = ("load_" if dataset.startswith("sandvine") else "fetch_") + dataset.replace("-", "_")
+    return hasattr(m, name)
+
+
+def env_is_set(name):
+    import os
+    return name in os.environ
+
+
+def env_value(name):
+    import os
+    return os.environ.get(name)
+
+
+def expanduser(p):
+    import os
+    return os.path.expanduser(p)
